@@ -8,6 +8,7 @@ pub mod c06;
 pub mod c08;
 pub mod c12;
 pub mod c14;
+pub mod c16;
 pub mod c19;
 
 pub fn run(ctx: &Ctx) -> bool {
@@ -20,6 +21,7 @@ pub fn run(ctx: &Ctx) -> bool {
         "C08" => c08::run(ctx),
         "C12" => c12::run(ctx),
         "C14" => c14::run(ctx),
+        "C16" => c16::run(ctx),
         "C19" => c19::run(ctx),
         _ => return false,
     }
@@ -37,6 +39,7 @@ fn replay_one(ctx: &Ctx, sub: &str, input: &serde_json::Value) -> Option<Result<
         "C08" => c08::replay(ctx, sub, input),
         "C12" => c12::replay(ctx, sub, input),
         "C14" => c14::replay(ctx, input),
+        "C16" => c16::replay(ctx, sub, input),
         "C19" => c19::replay(ctx, input),
         _ => return None,
     })
